@@ -210,9 +210,15 @@ def gor_clean(S, g, depth=0):
         if x[0] == "seq":
             return plain(x[1]) and plain(x[2])
         return x[0] == "ent" and is_lit_key(x[1])
+    def keys(x):
+        if x[0] == "seq":
+            return keys(x[1]) | keys(x[2])
+        return {repr(x[1])}
     k = g[0]
     if k == "gor":
-        return plain(g[1]) and plain(g[2])
+        # ... and the alternatives name different keys: with a shared key the validators commit to the first alternative
+        # whose members match and do not retry (part of the map-member-shape finding)
+        return plain(g[1]) and plain(g[2]) and not (keys(g[1]) & keys(g[2]))
     if k == "seq":
         return gor_clean(S, g[1], depth) and gor_clean(S, g[2], depth)
     if k == "occ":
